@@ -1014,9 +1014,13 @@ def _exec_abs(stmts: List[ast.stmt], env: Dict[str, tuple], default_attr: str, s
                 env[name] = v
             continue
         if isinstance(s, ast.Assign):
+            if any(isinstance(x, ast.Name) and x.id in env for t in s.targets for x in ast.walk(t)):
+                return False        # a tracked name is re-bound in a form this domain does not follow
             continue
         if isinstance(s, ast.Pass):
             continue
+        if isinstance(s, (ast.FunctionDef, ast.AsyncFunctionDef)) and s.name not in env:
+            continue            # defining a nested helper binds its name and does nothing else
         return False
     return True
 
@@ -1079,7 +1083,94 @@ def _conc(e: ast.AST, env: Dict[str, object], default_attr: str, default_val: fl
             return {'max': max, 'min': min, 'float': float, 'bool': bool, 'abs': abs}[e.func.id](*args)
         except (TypeError, ValueError):
             raise _NotUnderstood(norm(e))
+    if isinstance(e, ast.Tuple) and not any(isinstance(x, ast.Starred) for x in e.elts):
+        return tuple(_conc(x, env, default_attr, default_val) for x in e.elts)
+    if isinstance(e, ast.Subscript) and isinstance(e.slice, ast.Constant) and isinstance(e.slice.value, int):
+        v = _conc(e.value, env, default_attr, default_val)
+        if isinstance(v, tuple) and -len(v) <= e.slice.value < len(v):
+            return v[e.slice.value]
+        raise _NotUnderstood(norm(e))
+    if isinstance(e, ast.Call) and isinstance(e.func, ast.Attribute) and isinstance(e.func.value, ast.Name) and e.func.value.id == 'self' \
+            and e.func.attr in _CONC_HELPERS and not any(isinstance(a, ast.Starred) for a in e.args) and all(k.arg for k in e.keywords):
+        # a private, pure helper method of the lock class (`self._wait_policy(blocking=..., timeout=...)`): folded too
+        fn = _CONC_HELPERS[e.func.attr]
+        if fn in _CONC_STACK or len(_CONC_STACK) > 3:
+            raise _NotUnderstood(norm(e))
+        a = fn.args
+        if a.vararg or a.kwarg or a.posonlyargs:
+            raise _NotUnderstood(norm(e))
+        names = [x.arg for x in a.args][1:]
+        if len(e.args) > len(names):
+            raise _NotUnderstood(norm(e))
+        loc: Dict[str, object] = {}
+        for nm, d in zip(reversed([x.arg for x in a.args]), reversed(a.defaults)):
+            loc[nm] = _conc(d, {}, default_attr, default_val)
+        for kw, d in zip(a.kwonlyargs, a.kw_defaults):
+            if d is not None:
+                loc[kw.arg] = _conc(d, {}, default_attr, default_val)
+        for nm, x in zip(names, e.args):
+            loc[nm] = _conc(x, env, default_attr, default_val)
+        for k in e.keywords:
+            if k.arg not in names + [x.arg for x in a.kwonlyargs]:
+                raise _NotUnderstood(norm(e))
+            loc[k.arg] = _conc(k.value, env, default_attr, default_val)
+        if any(nm not in loc for nm in names + [x.arg for x in a.kwonlyargs]):
+            raise _NotUnderstood(norm(e))
+        _CONC_STACK.append(fn)
+        try:
+            ret = _run_conc(fn.body, loc, default_attr, default_val)
+        finally:
+            _CONC_STACK.pop()
+        return ret[0] if ret is not None else None
     raise _NotUnderstood(norm(e))
+
+
+#: private methods of the lock class that `_conc` may fold through (set by _rule_arguments)
+_CONC_HELPERS: Dict[str, ast.FunctionDef] = {}
+_CONC_STACK: List[ast.FunctionDef] = []
+
+
+def _run_conc(stmts: List[ast.stmt], env: Dict[str, object], default_attr: str, default_val: float):
+    """Fold the body of a pure helper (if / assignments / return over booleans, numbers, None, tuples):
+    (value,) when a return is reached, None when the statements fall through."""
+    for s_ in stmts:
+        if isinstance(s_, ast.Expr) and isinstance(s_.value, ast.Constant):
+            continue
+        if isinstance(s_, ast.Pass):
+            continue
+        if isinstance(s_, ast.Return):
+            return (_conc(s_.value, env, default_attr, default_val) if s_.value is not None else None,)
+        if isinstance(s_, ast.If):
+            r_ = _run_conc(s_.body if _conc(s_.test, env, default_attr, default_val) else s_.orelse, env, default_attr, default_val)
+            if r_ is not None:
+                return r_
+            continue
+        if isinstance(s_, ast.AnnAssign) and s_.value is not None:
+            s_ = ast.Assign(targets=[s_.target], value=s_.value)
+        if isinstance(s_, ast.Assign) and len(s_.targets) == 1:
+            _assign_conc(s_.targets[0], s_.value, env, default_attr, default_val, strict=True)
+            continue
+        raise _NotUnderstood(type(s_).__name__)
+    return None
+
+
+def _assign_conc(tg: ast.AST, value: ast.AST, env: Dict[str, object], default_attr: str, default_val: float, strict: bool) -> None:
+    names = [x.id for x in ast.walk(tg) if isinstance(x, ast.Name)]
+    try:
+        v = _conc(value, env, default_attr, default_val)
+        if isinstance(tg, ast.Name):
+            env[tg.id] = v
+            return
+        if isinstance(tg, ast.Tuple) and all(isinstance(x, ast.Name) for x in tg.elts) and isinstance(v, tuple) and len(v) == len(tg.elts):
+            for x, y in zip(tg.elts, v):
+                env[x.id] = y
+            return
+        raise _NotUnderstood(norm(tg))
+    except _NotUnderstood:
+        if strict:
+            raise
+        for nm in names:
+            env.pop(nm, None)     # a local that does not matter (id(self), a file name, ...); if it does, its next use is not understood
 
 
 def _exec_conc(stmts: List[ast.stmt], env: Dict[str, object], default_attr: str, default_val: float, stop) -> bool:
@@ -1097,13 +1188,19 @@ def _exec_conc(stmts: List[ast.stmt], env: Dict[str, object], default_attr: str,
             if s_.value is None:
                 continue
             s_ = ast.Assign(targets=[s_.target], value=s_.value)
-        if isinstance(s_, ast.Assign) and len(s_.targets) == 1 and isinstance(s_.targets[0], ast.Name):
-            try:
-                env[s_.targets[0].id] = _conc(s_.value, env, default_attr, default_val)
-            except _NotUnderstood:
-                env.pop(s_.targets[0].id, None)     # a local that does not matter (id(self), a file name, ...)
+        if isinstance(s_, ast.Assign) and len(s_.targets) == 1 and isinstance(s_.targets[0], (ast.Name, ast.Tuple)):
+            _assign_conc(s_.targets[0], s_.value, env, default_attr, default_val, strict=False)
             continue
-        if isinstance(s_, (ast.Assign, ast.Pass)):
+        if isinstance(s_, ast.Assign):
+            for t_ in s_.targets:
+                for x in ast.walk(t_):
+                    if isinstance(x, ast.Name):
+                        env.pop(x.id, None)
+            continue
+        if isinstance(s_, ast.Pass):
+            continue
+        if isinstance(s_, (ast.FunctionDef, ast.AsyncFunctionDef)):
+            env.pop(s_.name, None)      # defining a nested helper binds its name and does nothing else
             continue
         raise _NotUnderstood(type(s_).__name__)
     return False
@@ -1138,6 +1235,15 @@ def _rule_arguments(ctx: Ctx, r: LockRoles) -> None:
         return
     tlc = tl_calls[0].ast
     stmt_of = lambda s: any(x is tlc for x in ast.walk(s))
+    _CONC_HELPERS.clear()
+    cls_sc = acq.parent
+    while cls_sc is not None and cls_sc.kind != 'class':
+        cls_sc = cls_sc.parent
+    if cls_sc is not None:
+        for m_ in cls_sc.children:
+            if m_.kind == 'function' and m_.name.startswith('_') and not m_.name.startswith('__') and not m_.is_async \
+                    and not m_.is_generator and not m_.decorators and m_ not in (r.os_acquire, r.os_release):
+                _CONC_HELPERS[m_.name] = m_.node
     expected = {
         (False, 'None'): (('bool', False), 'nowait', ('bool', False)),
         (True, 'None'): (('bool', True), ('num', 'default'), ('sym', 'default<0')),
